@@ -417,6 +417,28 @@ def buffer_checked(conds):
     return False
 
 
+def _validations_in(facts, g, depth=0, seen=None):
+    """Which configuration validations a helper performs, transitively within its crate:
+    "format" (NumberFormat::is_valid / ::error), "punctuation" (is_valid_options_punctuation), "error" (format.error())."""
+    seen = seen if seen is not None else set()
+    out = set()
+    if g.short in seen or depth > 3:
+        return out
+    seen.add(g.short)
+    for _b, c, _a, _d, _t in g.calls():
+        cn = callee_name(c)
+        if cn.endswith(("NumberFormat::is_valid", "NumberFormat::error")):
+            out.add("format")
+        if cn.endswith("NumberFormat::error"):
+            out.add("error")
+        if cn.endswith("::is_valid_options_punctuation"):
+            out.add("punctuation")
+        for h in facts.by_short.get(cn, []):
+            if h.crate == g.crate:
+                out |= _validations_in(facts, h, depth + 1, seen)
+    return out
+
+
 def rule_entry_validation(col, facts):
     """MPT-validate: at every *_with_options entry point the back-end call is dominated by the
     `true` edge of NumberFormat::<FORMAT>::is_valid() (or an assert! of it), and for float parsers
@@ -445,14 +467,34 @@ def rule_entry_validation(col, facts):
                 # validation lives in WriteFloat::write_float (checked below)
                 col.ok(R, f.short + "->write_float")
                 continue
-            col.check(R, f.short, valid, "%s is called without a dominating `NumberFormat::<FORMAT>::is_valid()` check" % last_seg(cn), f.loc(f.blocks[bb]["ts"]))
+            # the checks may have been moved into a helper of the same crate whose result is branched on
+            # (`match configuration_error::<FORMAT>(options) { Error::Success => parse(..), e => Err(e) }`): which
+            # helpers on the dominating conditions perform which validation (transitively)?
+            via = set()
+            for _d, e, pol in conds:
+                for c2 in expr_calls(e):
+                    for g in facts.by_short.get(c2[1], []):
+                        if g.crate == f.crate:
+                            via |= _validations_in(facts, g)
+            if not valid and "format" in via:
+                col.assumed("not-applied", "MPT-validate:%s" % f.short, "the back-end call is dominated by a test of a helper that validates the format; which of its results lets the call through is not decided", f.loc(f.blocks[bb]["ts"]))
+            else:
+                col.check(R, f.short, valid, "%s is called without a dominating `NumberFormat::<FORMAT>::is_valid()` check" % last_seg(cn), f.loc(f.blocks[bb]["ts"]))
             if f.crate == "lexical_parse_float":
                 punct = any(is_call(e, "::is_valid_options_punctuation") and pol is True for _d, e, pol in conds)
+                if not punct and "punctuation" in via:
+                    col.assumed("not-applied", "MPT-validate:%s#punctuation" % f.short, "the back-end call is dominated by a test of a helper that validates the options punctuation; not decided which result lets the call through", f.loc(f.blocks[bb]["ts"]))
+                    continue
                 col.check(R, f.short + "#punctuation", punct,
                           "%s is called without a dominating `is_valid_options_punctuation(FORMAT, exponent, decimal_point)` check" % last_seg(cn), f.loc(f.blocks[bb]["ts"]))
         # the error returned on the invalid edge is the format's own error
         if f.crate.startswith("lexical_parse"):
             errs = [callee_name(c) for _b, c, _a, _d, _t in f.calls() if callee_name(c).endswith("NumberFormat::error")]
+            if not errs:
+                for _b, c, _a, _d, _t in f.calls():
+                    for g in facts.by_short.get(callee_name(c), []):
+                        if g.crate == f.crate and "error" in _validations_in(facts, g):
+                            errs.append(g.short)
             col.check(R, f.short + "#error", bool(errs), "an invalid format is not answered with `format.error()`", f.loc())
     col.floor(R, "validated back-end calls", n, 12 * 2 + 2 * 2 + 12)
     # WriteFloat::write_float: both asserts dominate every store and back-end call
